@@ -419,7 +419,7 @@ Proof.
   - inversion H; subst; auto.
   - destruct Hsafe as [Hop Hrest].
     destruct (gstep sl op) as [sl1|e] eqn:E; cbn in H; try discriminate.
-    eapply IH; eauto. eapply gstep_consistent; eauto.
+    apply (IH sl1 sl'); auto. exact (gstep_consistent sl op sl1 Hs Hop E).
 Qed.
 
 (** Slide-level frame and path statements for one addition. *)
